@@ -919,7 +919,14 @@ func c09RunHistory(r *verifkit.Run, idx int, stats *c09AuditStats, opsPerIssuer,
 	rng := r.Rand(9, uint64(idx))
 	h := &c09Hist{r: r, idx: idx, seed: []uint64{rng.Uint64(), rng.Uint64()}}
 	h.plan = c09MakePlan(rng, opsPerIssuer, false)
+	c09RunPlan(h, stats, maxCuts, pCut)
+}
+
+// c09RunPlan runs reference, live run under crash images and audits for h.plan.
+func c09RunPlan(h *c09Hist, stats *c09AuditStats, maxCuts int, pCut float64) {
 	p := h.plan
+	r := h.r
+	_ = r
 	for _, g := range p.gens {
 		for _, st := range g.steps {
 			stats.add("steps."+st.desc(), 1)
@@ -1001,6 +1008,19 @@ func TestVerifC09Crashfs(t *testing.T) {
 			continue
 		}
 		c09DiscardScenario(r, i, stats)
+	}
+	// large-truncate family: suffix cuts of 256-800 rows, an image at EVERY
+	// filesystem event of the history (pCut = 1)
+	for i := 0; i < r.N(4, 24); i++ {
+		idx := 200000 + i
+		if r.Skip(idx) {
+			continue
+		}
+		rng := r.Rand(41, uint64(i))
+		h := &c09Hist{r: r, idx: idx, seed: []uint64{rng.Uint64(), rng.Uint64()}}
+		h.plan = c09LargeTruncPlan(rng, i%2 == 0)
+		c09RunPlan(h, stats, 400, 1.0)
+		stats.add("histories.large_truncate", 1)
 	}
 	for k, v := range stats.m {
 		r.Count(k, v)
